@@ -82,8 +82,8 @@ func init() {
 			for _, s := range bt.Signers {
 				parties = append(parties, s.Bytes)
 			}
-			if bt.Tx.Granter > 0 {
-				parties = append(parties, w.acct(bt.Tx.Granter-1).Bytes)
+			if bt.Granter.Bytes != nil {
+				parties = append(parties, bt.Granter.Bytes)
 			}
 			hasFeeOp := false
 			for _, o := range bt.Ops {
@@ -107,7 +107,7 @@ func init() {
 						ok = true
 					}
 				case strings.HasPrefix(k, "feegrant/"):
-					ok = bt.Tx.Granter > 0
+					ok = bt.Granter.Bytes != nil
 				case strings.HasPrefix(k, "enterprise/") && hasFeeOp:
 					payer := bt.Payer.Bytes
 					for _, ak := range [][]byte{enttypes.LockedUndAddressStoreKey(payer), enttypes.SpentEFUNDAddressStoreKey(payer), enttypes.TotalLockedUndKey, enttypes.TotalSpentEFUNDKey} {
